@@ -261,9 +261,7 @@ func coq(k *Case) string {
 		i = j
 	}
 	return c.Tuple(
-		c.MapList(k.Decls, func(d Decl) string {
-			return c.Tuple(bytes(d.Method), bytes(d.URL), c.MapList(d.Rem, coqRem), c.MapList(d.Diag, coqDg))
-		}),
+		c.MapList(k.Decls, coqDecl),
 		c.Tuple(c.MapList(k.GRem, coqRem), c.MapList(k.GDiag, coqDg)),
 		c.B(k.Accepted),
 		c.List(reqs),
@@ -340,9 +338,15 @@ func declKey(d Decl) string {
 // order as a correspondence case, runs the per-case monitor and the
 // order-independence comparison.
 func runGroup(o *c.Out, suite string, ds []Decl, grem []Rem, gdiag []Dg, reqs []Req) {
+	runGroupOrders(o, suite, orders(o, ds), grem, gdiag, reqs)
+}
+
+// runGroupOrders: the same for the given orders of one declaration multiset
+func runGroupOrders(o *c.Out, suite string, ords [][]Decl, grem []Rem, gdiag []Dg, reqs []Req) {
 	var ref *Case
 	var refIdx int
-	for _, ord := range orders(o, ds) {
+	for _, ord := range ords {
+		ds := ord
 		k := Case{Decls: ord, GRem: grem, GDiag: gdiag, Reqs: append([]Req{}, reqs...)}
 		exec(&k)
 		if !k.Accepted {
@@ -533,7 +537,14 @@ func main() {
 		"Definition nosel (m : list Z) : sel_obs := (m, [], [], false).\n" +
 		"Definition GETs : list Z := " + c.Bytes("GET") + "%Z.\nDefinition POSTs : list Z := " + c.Bytes("POST") + "%Z.\n" +
 		strings.Join(internDefs, "\n")
+	// the suite of big configurations has its own, longer header (its URLs and
+	// declarations are defined once per shard); a replay may be of any suite
+	headerLarge := largeHeader(header)
+	if o.Replay != "" {
+		header = headerLarge
+	}
 	o.DeclareSuite("paths", header, "case", "run_case")
+	o.DeclareSuite("large", headerLarge, "case", "run_case")
 	o.DeclareSuite("kinds", header, "case", "run_case")
 	o.DeclareSuite("random", header, "case", "run_case")
 	if o.Thorough() {
@@ -548,7 +559,9 @@ func main() {
 		"h/<= 3 segments over {a,b,c} x {GET,POST}; kinds: every multiset of <= 2 GET declarations over every host-label/path-segment split of " +
 		"<= 2 labels, and over 5 host/path wildcard patterns of a two-label host against requests to that host, to a host extending it and to its first label; also every pair over 7 patterns with a wildcard in the middle; random: 1..5 declarations from a pool of valid patterns (1 in 6 malformed / unusually spelled), shared parameter names, " +
 		"several remedies per declaration, equal remedy types, disabled plugins, globals, in every order (<= 4) or 12 " +
-		"sampled orders; distinct = distinct (declarations in order, requests, observations); non-trivial = at " +
+		"sampled orders; large: 49, 50, 51, 52, 120 (thorough: also random 40..64, 95..129) literal siblings below one parent (below a path segment, " +
+		"directly below the host, with a subtree each, host labels below the root, host labels below a label), mixed methods, alone or next to a " +
+		"parameter and / or wildcard sibling, in declaration order, reversed and shuffled, requests for the first, 8th, 49th..52nd, last and undeclared siblings; distinct = distinct (declarations in order, requests, observations); non-trivial = at " +
 		"least one endpoint-scoped remedy was selected for some request")
 	var k Case
 	if _, ok := o.ReplayCase(&k); ok {
@@ -638,5 +651,8 @@ func main() {
 		}
 		runGroup(o, su, ds, grem, gdiag, reqs)
 	}
+
+	// big configurations: many siblings below one parent (large.go)
+	largeSuite(o)
 	o.Finish()
 }
